@@ -442,6 +442,43 @@ func runC09(r *Rng, n int, tier string) {
 			}
 		}
 	}
+	// a type renamed after tables use it, the columns spelling it in different ways: every column of the type
+	// carries ONE generated name (the old or the new one, as the catalog has it) - never none
+	for ri, decl := range []string{"c mood NOT NULL, d public.mood NOT NULL, e mood[] NOT NULL, f public.mood[] NOT NULL"} {
+		schema := "CREATE TYPE mood AS ENUM ('a', 'b');\nCREATE TABLE t (k int NOT NULL, " + decl + ");\nALTER TYPE mood RENAME TO feeling;\n"
+		query := "-- name: All :many\nSELECT * FROM t;\n\n-- name: ByD :many\nSELECT k FROM t WHERE d = $1;\n\n-- name: SetF :exec\nUPDATE t SET f = $1 WHERE k = 1;\n"
+		files := map[string]string{"schema.sql": schema, "query.sql": query, "sqlc.json": confV1("postgresql", "")}
+		res := generate(files)
+		impl := J{"ok": res.OK()}
+		oracle := ""
+		if !res.OK() {
+			impl["err"] = firstLine(res.Stderr + res.Err + res.Panic)
+			oracle = "generation failed: " + fmt.Sprint(impl["err"])
+		} else {
+			sum := summarize(res.Files)
+			got := map[string]string{}
+			if st := sum.structNamed("T"); st != nil {
+				for _, f := range st.Fields {
+					got[f.Name] = f.Type
+				}
+			}
+			impl["model"] = got
+			base := strings.TrimPrefix(got["C"], "[]")
+			for _, fn := range []string{"C", "D", "E", "F"} {
+				want := base
+				if fn == "E" || fn == "F" {
+					want = "[]" + base
+				}
+				if (base != "Mood" && base != "Feeling") || got[fn] != want {
+					oracle = fmt.Sprintf("columns of one (renamed) enum type are typed %v: expected Mood or Feeling for all of them (arrays as slices)", got)
+				}
+			}
+			if m := sum.method("ByD"); m != nil && len(m.Params) == 1 && m.Params[0].Type != base && oracle == "" {
+				oracle = fmt.Sprintf("parameter compared with column d is %s, the column's type is %s", m.Params[0].Type, base)
+			}
+		}
+		emit(Case{ID: fmt.Sprintf("udt-rename-%d", ri), Kind: "e2e-user", In: J{"files": files}, Impl: impl, Oracle: oracle, Tags: []string{"e2e-user", "postgresql", "type-renamed"}})
+	}
 	for ti, tn := range []string{"invoices", "Invoices", "Order_Lines", "orderLines"} {
 		for _, nn := range []bool{true, false} {
 			null := ""
